@@ -107,4 +107,85 @@ example : (DQ.run {} [.dgram [1], .error 7, .dgram [2], .recv, .recv, .recv, .re
 
 example : ValidPayload [10] 8 [97, 98] := by decide +kernel
 
+-- ==== BEGIN generic framers ====
+section GenericFramers
+open GenericFr
+
+/-- **C05, one-shot `deserialize` of the file-based serializers.**  A datagram is accepted exactly when the loader
+    returns a packet having read the datagram up to its last byte; so a datagram holding a frame and a half, or two
+    frames, is *one* error (`extra`), a truncated frame is one error (`missing`), a rejected frame is one error
+    (`invalid`) — never two packets, never a carried-over remainder (the result type has no remainder). -/
+theorem C05_generic_oneshot (load : Bytes → LoadRes) (S : Stable load) (d : Bytes) :
+    (GenericFr.deserialize load d = .pkt ↔ load d = .ok d.length) ∧
+    (∀ f g : Bytes, IsFrame load f → load f = .ok f.length → g ≠ [] → GenericFr.deserialize load (f ++ g) = .extra) ∧
+    (∀ (f : Bytes) (n : Nat), IsFrame load f → n < f.length → GenericFr.deserialize load (f.take n) = .missing) ∧
+    (∀ f : Bytes, load f = .bad f.length → GenericFr.deserialize load f = .invalid) := by
+  refine ⟨?_, ?_, ?_, ?_⟩
+  · unfold GenericFr.deserialize
+    cases hl : load d with
+    | eof => simp
+    | bad k => simp
+    | ok k =>
+      have hk := S.ok_le d k hl
+      by_cases he : k = d.length
+      · subst he; simp
+      · have hlt : k < d.length := by omega
+        have hne : (d.drop k).isEmpty = false := by
+          have : (d.drop k).length ≠ 0 := by simp; omega
+          cases hd : d.drop k with
+          | nil => rw [hd] at this; simp at this
+          | cons x xs => rfl
+        simp only [hne, Bool.false_eq_true, if_false]
+        constructor
+        · intro hc; cases hc
+        · intro hc; injection hc with hc; exact absurd hc he
+  · intro f g hf hok hg
+    unfold GenericFr.deserialize
+    rw [S.ok_ext f g _ hok]
+    have : ((f ++ g).drop f.length).isEmpty = false := by
+      simp only [List.drop_left]
+      cases g with
+      | nil => exact absurd rfl hg
+      | cons x xs => rfl
+    simp only [this, Bool.false_eq_true, if_false]
+  · intro f n hf hn
+    unfold GenericFr.deserialize
+    rw [hf.prefix_eof n hn]
+  · intro f hbad
+    unfold GenericFr.deserialize
+    rw [hbad]
+
+/-- the compressor's one-shot `deserialize`: a packet exactly when the decompressor reaches end-of-stream on the last
+    byte of the datagram and the wrapped serializer accepts the decompressed data -/
+theorem C05_generic_compressor_oneshot (dec : Bytes → DecRes) (d : Bytes)
+    (hle : ∀ k ok, dec d = .fin k ok → k ≤ d.length) :
+    cdeserialize dec d = .pkt ↔ dec d = .fin d.length true := by
+  unfold cdeserialize
+  cases hd : dec d with
+  | more => simp
+  | corrupt => simp
+  | fin k ok =>
+    have hk := hle k ok hd
+    by_cases he : k = d.length
+    · subst he
+      cases ok <;> simp
+    · have hne : (d.drop k).isEmpty = false := by
+        have : (d.drop k).length ≠ 0 := by simp; omega
+        cases hdk : d.drop k with
+        | nil => rw [hdk] at this; simp at this
+        | cons x xs => rfl
+      simp only [hne, Bool.false_eq_true, if_false]
+      constructor
+      · intro hc; cases hc
+      · intro hc; injection hc with hc _; exact absurd hc he
+
+/-- non-vacuity (toy loader): one frame / a frame and a half / two frames / a truncated frame / a bad header -/
+example : GenericFr.deserialize toyLoad [2, 7, 7] = .pkt ∧ GenericFr.deserialize toyLoad [2, 7, 7, 2, 7] = .extra ∧
+    GenericFr.deserialize toyLoad [2, 7, 7, 1, 9] = .extra ∧ GenericFr.deserialize toyLoad [2, 7] = .missing ∧
+    GenericFr.deserialize toyLoad [255] = .invalid ∧ IsFrameD toyLoad [2, 7, 7] := by
+  decide +kernel
+
+end GenericFramers
+-- ==== END generic framers ====
+
 end EasyNet
